@@ -32,7 +32,9 @@ RULE = (
     "non-trivial = a hit with >=2 modifications or an alternative protein, or several runs/files, or a rejected "
     "input; thorough adds exhaustive sweeps: all modification lists (<=3 mods, positions 0..n+1, peptides n<=4), all "
     "primary/alternative prefix patterns (<=4 alternatives), all interleavings of child elements, all document "
-    "shapes (<=2 runs, <=2 spectra, <=2 results, <=1 hit), all feature columns of <=4 cells over a 10-value pool"
+    "shapes (<=2 runs, <=2 spectra, <=2 results, <=1 hit), all feature columns of <=4 cells over a 10-value pool; "
+    "option cases = the same documents with exclude_features (0..5 names) / open_modification_bin_size / default "
+    "decoy_prefix / to_df=False, plus all exclusion sets of <=1 (thorough <=3) of 10 names x 3 bin settings"
 )
 
 FIXED = ["ms_data_file", "scan", "charge", "ret_time", "exp_mass", "calc_mass", "peptide", "proteins", "label"]
@@ -416,8 +418,11 @@ def py_spec_hit(prefix, h):
     return accs, label, sp
 
 
-def compare(chk, case, resp_model, resp_spec, tag="gen"):
-    impl = run_impl(case)
+def compare(chk, case, resp_model, resp_spec, tag="gen", impl=None, skip=frozenset()):
+    """`impl` / `skip` are used by `compare_opts` only: the implementation's output under options, reduced to
+    the default call's shape, and the excluded columns (compared there); the default path passes neither"""
+    if impl is None:
+        impl = run_impl(case)
     dropped = [f["render"]["drop_attr"] for f in case["files"] if f.get("render", {}).get("drop_attr")]
     if dropped:
         # a required attribute is absent: outside the property's quantifier and outside the model
@@ -486,7 +491,7 @@ def compare(chk, case, resp_model, resp_spec, tag="gen"):
                 if n not in names:
                     names.append(n)
         for n in names:
-            if n in RESERVED:
+            if n in RESERVED or n in skip:
                 continue
             if n not in ifd:
                 bad = ("score-missing", f"search score {n!r} is not a column")
@@ -508,6 +513,8 @@ def compare(chk, case, resp_model, resp_spec, tag="gen"):
         return
     # ---- model ---------------------------------------------------------------
     _, mrows, mfeats = model
+    if skip:
+        mfeats = [kc for kc in mfeats if kc[0] not in skip]
     if mrows != irows:
         k = next((i for i, (a, b) in enumerate(zip(mrows, irows)) if a != b), None)
         chk.corr_break("pepxml-rows", dict(info, first_diff=k, impl=irows[k] if k is not None else len(irows),
@@ -583,11 +590,498 @@ def derived_boundary(raw):
     return False
 
 
+# ----------------------------------------------------------------------------
+# options: exclude_features, open_modification_bin_size, default decoy_prefix, to_df=False
+# (a case carries them under "opts"; cases without that key take the default path above, unchanged)
+# ----------------------------------------------------------------------------
+DATASET_ROLES = dict(
+    spectrum=["ms_data_file", "scan", "ret_time"], peptide="peptide", protein="proteins", target="label",
+    optional=dict(filename="ms_data_file", scan="scan", calcmass="calc_mass", expmass="exp_mass", rt="ret_time",
+                  charge="charge"))
+
+
+def canon_raw(x):
+    """an untouched cell of the frame: None (NaN) | ("i", int) | ("t", text) | ("b", bool) | ("x", repr)"""
+    if x is None or x is pd.NA:
+        return None
+    if isinstance(x, (bool, np.bool_)):
+        return ("b", bool(x))
+    if isinstance(x, (int, np.integer)):
+        return ("i", int(x))
+    if isinstance(x, (float, np.floating)):
+        if x != x:
+            return None
+        return ("i", int(x)) if float(x).is_integer() else ("x", repr(float(x)))
+    if isinstance(x, str):
+        return ("t", x)
+    return ("x", repr(x))
+
+
+def impl_kwargs(case):
+    o = case["opts"]
+    kw = {}
+    if not o.get("default_prefix"):
+        kw["decoy_prefix"] = case["prefix"]
+    ex = o.get("exclude")
+    if ex is not None:
+        form = o.get("exclude_form", "list")
+        if form == "str" and len(ex) == 1:
+            kw["exclude_features"] = ex[0]
+        else:
+            kw["exclude_features"] = tuple(ex) if form == "tuple" else list(ex)
+    if o.get("bin") is not None:
+        kw["open_modification_bin_size"] = float(Fraction(o["bin"]))
+    return kw
+
+
+def run_impl_opts(case):
+    """-> ("ok", rows, [(column, (kind, cells))], dataset-info | None) | ("reject-<kind>", message)
+    kind: "f" float column, "b" bool column, "r" any other dtype (cells canonicalised by `canon_raw`)"""
+    import mokapot
+
+    paths = write_case(case)
+    arg = paths if (case.get("as_list", True) or len(paths) != 1) else paths[0]
+    if case.get("as_tuple") and isinstance(arg, list):
+        arg = tuple(arg)
+    kw = impl_kwargs(case)
+    assert not case["opts"].get("default_prefix") or case["prefix"] == "decoy_"
+    try:
+        df = mokapot.read_pepxml(arg, to_df=True, **kw)
+    except ValueError as e:
+        msg = str(e)
+        if msg.endswith("is not a PepXML file or is malformed."):
+            return ("reject-notxml", msg)
+        if "Percolator" in msg:
+            return ("reject-percolator", msg)
+        if "No objects to concatenate" in msg:
+            return ("reject-nofiles", msg)
+        return ("exception:ValueError", msg)
+    except KeyError as e:
+        if e.args == ("ms_data_file",):
+            return ("reject-nopsms", repr(e))
+        return ("exception:KeyError", repr(e))
+    except Exception as e:  # noqa: BLE001
+        return ("exception:" + type(e).__name__, repr(e)[:300])
+    cols = list(df.columns)
+    if cols[: len(FIXED)] != FIXED:
+        return ("exception:columns", repr(cols))
+    rows = []
+    try:
+        for rec in zip(*(df[c].tolist() for c in FIXED)):
+            rows.append([str(rec[0]), int(rec[1]), int(rec[2]), float(rec[3]), float(rec[4]), float(rec[5]),
+                         rec[6], rec[7], bool(rec[8])])
+    except (TypeError, ValueError) as e:
+        return ("exception:fixed-column-type", repr(e)[:200])
+    xcols = []
+    for c in cols[len(FIXED):]:
+        col = df[c]
+        if isinstance(col, pd.DataFrame):
+            return ("exception:duplicate-column", c)
+        if pd.api.types.is_bool_dtype(col.dtype):
+            xcols.append((c, ("b", [bool(x) for x in col.tolist()])))
+        elif pd.api.types.is_float_dtype(col.dtype):
+            xcols.append((c, ("f", [float(x) for x in col.tolist()])))
+        else:
+            xcols.append((c, ("r", [canon_raw(x) for x in col.tolist()])))
+    ds_info = None
+    if case["opts"].get("dataset"):
+        try:
+            ds = mokapot.read_pepxml(arg, to_df=False, **kw)
+            ds_info = dict(
+                feature_columns=list(ds._feature_columns), spectrum=list(ds._spectrum_columns),
+                peptide=ds._peptide_column, protein=ds._protein_column, target=ds._target_column,
+                optional=dict(ds._optional_columns), data_equal=bool(ds.data.reset_index(drop=True).equals(df.reset_index(drop=True))),
+                targets_equal=[bool(x) for x in ds.targets.tolist()] == [r[8] for r in rows])
+        except Exception as e:  # noqa: BLE001
+            ds_info = dict(error=type(e).__name__ + ": " + str(e)[:200])
+    return ("ok", rows, xcols, ds_info)
+
+
+def xv_parse(v):
+    if v == "nan":
+        return None
+    if v[0] == "i":
+        return ("i", a_int(v[1]))
+    if v[0] == "t":
+        return ("t",) + num_parse(v[1])
+    if v[0] == "b":
+        return ("b", a_bool(v[1]))
+    return ("fv", fv_parse(v))
+
+
+def model_x(resp):
+    resp = resp.strip()
+    if not resp.startswith("["):
+        return (resp,)
+    v = _parse_full(resp)
+    tags = [None if o[1] == "none" else a_rat(o[1][0]) for o in v[0]]
+    feats = [(a_str(kc[0]), [xv_parse(c) for c in kc[1]]) for kc in v[1]]
+    return ("ok", tags, feats, [a_str(x) for x in v[2]])
+
+
+def text_num(s):
+    """(root, pow) of a score literal as written, or None"""
+    t = s.lower()
+    try:
+        if "e" in t:
+            r, p = t.split("e", 1)
+            return (Fraction(r), int(p))
+        return (Fraction(t), None)
+    except (ValueError, ZeroDivisionError):
+        return None
+
+
+def raw_expected(h, n):
+    """direct re-statement: the untouched cell of column `n` for hit `h`"""
+    sc = [c for c in h["children"] if c[0] == "s" and c[1] == n]
+    if sc:
+        return ("t", score_text(sc[-1]))
+    if n == "missed_cleavages" and h["mc"] is not None:
+        return ("i", h["mc"])
+    if n == "ntt" and h["ntt"] is not None:
+        return ("i", h["ntt"])
+    return None
+
+
+def findings(chk):
+    return len(chk.spec_violations) + len(chk.corr_breaks)
+
+
+def round4_candidates(c):
+    y = c * 10000
+    f = y.numerator // y.denominator
+    return {float(Fraction(f, 10000)), float(Fraction(f + 1, 10000))}
+
+
+def compare_opts(chk, case, resp_model, resp_spec, resp_x, tag="gen"):
+    o = case["opts"]
+    excl = list(o.get("exclude") or [])
+    b = o.get("bin")
+    info = dict(case=case)
+    mx = model_x(resp_x)
+    if mx[0] in ("bad-args", "bad-op"):
+        raise RuntimeError(f"driver answered {mx[0]} for {json.dumps(case)[:400]}")
+    impl = run_impl_opts(case)
+    if mx[0] == "unmodelled-name":
+        # a search score named like another key of the PSM dict: the code overwrites that key (outside the model)
+        names = sorted({c[1] for f in case["files"] for h in iter_hits(f) for c in h["children"]
+                        if c[0] == "s" and (c[1] in RESERVED or c[1].startswith("charge_"))})
+        chk.reject(f"reserved-score-name:{','.join(names)}:{impl[0]}")
+        return
+    if mx[0] == "unmodelled":
+        why = "nonpositive-bin" if (b is not None and Fraction(b) <= 0) else "zero-charge"
+        chk.reject(f"unmodelled-{why}:{impl[0]}")
+        return
+    if impl[0] != "ok":
+        n0 = findings(chk)
+        compare(chk, case, resp_model, resp_spec, tag, impl=impl)
+        if findings(chk) == n0 and mx[0] != impl[0]:
+            chk.corr_break("pepxml-opts", dict(info, impl=list(impl), model=mx[0]))
+        return
+    _, irows, xcols, ds_info = impl
+    # ---- the tag appended by open_modification_bin_size ------------------------------
+    tags = None
+    base_rows = irows
+    if b is not None:
+        tags, base_rows = [], []
+        for i, r in enumerate(irows):
+            pep = r[6]
+            k = pep.rfind("[")
+            t = None
+            if k >= 0 and pep.endswith("]"):
+                try:
+                    t = float(pep[k + 1:-1])
+                except ValueError:
+                    t = None
+            if t is None or t != t:
+                chk.spec_violation("openmod-suffix", dict(info, clause=(
+                    f"row {i}: peptide {pep!r} does not end with a numeric [bin] group"), impl_rows=irows[:20]))
+                return
+            tags.append(t)
+            base_rows.append(r[:6] + [pep[:k]] + r[7:])
+    names = [c for c, _ in xcols]
+    skip = frozenset(n for n in excl if n in names)
+    reduced = [(c, v[1] if v[0] == "f" else None) for c, v in xcols if c not in skip]
+    # ---- everything the options must not touch: same checks as the default call ------
+    n0 = findings(chk)
+    compare(chk, case, resp_model, resp_spec, tag, impl=("ok", base_rows, reduced), skip=skip)
+    if findings(chk) != n0:
+        return
+    if mx[0] != "ok":
+        chk.corr_break("pepxml-opts", dict(info, impl="ok", model=mx[0]))
+        return
+    _, mtags, mfeats, mfeatcols = mx
+    spec = spec_rows(resp_spec)
+    hits = [h for f in case["files"] for h in iter_hits(f)]
+    exp_f = np.array([float(s["exp"]) for s in spec], dtype=np.float64)
+    calc_f = np.array([float(s["calc"]) for s in spec], dtype=np.float64)
+    z_f = np.array([s["charge"] for s in spec], dtype=np.int64)
+    derived = {
+        "mass_diff": (exp_f - calc_f).tolist(),
+        "abs_mz_diff": np.abs((exp_f / z_f + PROTON) - (calc_f / z_f + PROTON)).tolist(),
+    }
+    xd = dict(xcols)
+    # ---- excluded columns: specification (direct re-statement) ------------------------
+    gone = [n for n in excl if n in column_pool(case) and n not in names]
+    if gone:
+        chk.spec_violation("excluded-column-dropped", dict(info, clause=(
+            f"excluded column(s) {gone!r} are missing from the returned frame"), impl_columns=names))
+        return
+    for n in sorted(skip):
+        kind, vals = xd[n]
+        if n in derived:
+            ok = kind == "f" and all(same(a, c) for a, c in zip(derived[n], vals))
+            want_vals = derived[n]
+        elif n.startswith("charge_"):
+            want_vals = [f"charge_{s['charge']}" == n for s in spec]
+            ok = kind == "b" and vals == want_vals
+        elif n == "num_matched_peptides":
+            with np.errstate(all="ignore"):
+                want_vals = [float("nan") if h["nm"] is None else float(np.log10(np.float64(h["nm"]))) for h in hits]
+            ok = kind == "f" and all(same(a, c) for a, c in zip(want_vals, vals))
+        else:
+            want_vals = [raw_expected(h, n) for h in hits]
+            got = vals if kind == "r" else ([canon_raw(x) for x in vals] if kind == "f" else None)
+            ok = got == want_vals
+        if not ok or len(vals) != len(hits):
+            chk.spec_violation("excluded-column", dict(info, clause=(
+                f"excluded column {n!r} is not left as parsed (dtype kind {kind!r})"),
+                impl=[list(x) if isinstance(x, tuple) else x for x in vals[:30]],
+                expected=[list(x) if isinstance(x, tuple) else x for x in want_vals[:30]]))
+            return
+    # ---- bins: specification ------------------------------------------------------------
+    if b is not None:
+        bq = Fraction(b)
+        bf = float(bq)
+        md_f = derived["mass_diff"]
+        md_q = [s["exp"] - s["calc"] for s in spec]
+        lo_q = min(md_q)
+        bad = None
+        for i, (t, md) in enumerate(zip(tags, md_f)):
+            if abs(md - t) > bf / 2 + 5e-5 + 1e-9 * max(1.0, abs(md)):
+                bad = f"row {i}: bin value {t!r} is further than half a bin ({b}) from the mass difference {md!r}"
+                break
+            g = (t - float(lo_q) - bf / 2) / bf
+            if bf >= 0.002 and abs(g - round(g)) > 5e-5 / bf + 1e-6:
+                bad = (f"row {i}: bin value {t!r} is not a bin centre of the grid anchored at the smallest mass "
+                       f"difference {float(lo_q)!r} with step {b}")
+                break
+        if bad is None:
+            order = sorted(range(len(tags)), key=lambda i: (md_f[i], tags[i]))
+            for i, j in zip(order, order[1:]):
+                if tags[i] > tags[j] or (md_f[i] == md_f[j] and tags[i] != tags[j]):
+                    bad = f"rows {i},{j}: bin values {tags[i]!r},{tags[j]!r} are not monotone in the mass difference"
+                    break
+        if bad:
+            chk.spec_violation("openmod-bin", dict(info, clause=bad, impl_tags=tags[:30], mass_diff=md_f[:30]))
+            return
+    # ---- model ---------------------------------------------------------------------------
+    if [k for k, _ in mfeats] != names:
+        chk.corr_break("pepxml-opts-columns", dict(info, impl=names, model=[k for k, _ in mfeats]))
+        return
+    md_ = dict(mfeats)
+    for n in sorted(skip):
+        kind, vals = xd[n]
+        mcol = md_[n]
+        ok = len(mcol) == len(vals)
+        for mc, x in zip(mcol, vals):
+            if not ok:
+                break
+            if kind == "b":
+                ok = mc == ("b", x)
+            elif kind == "f" and mc is not None and mc[0] == "fv":
+                fv = mc[1]
+                ok = close(fv_value(fv), x) if n in derived else same(fv_value(fv), x)
+            else:
+                cx = x if kind == "r" else canon_raw(x)
+                if cx is None or mc is None:
+                    ok = cx is None and mc is None
+                elif cx[0] == "t":
+                    ok = mc[0] == "t" and text_num(cx[1]) == (mc[1], mc[2])
+                else:
+                    ok = mc == cx
+        if not ok:
+            chk.corr_break("pepxml-opts-excluded", dict(info, column=n, impl=[kind, [
+                list(x) if isinstance(x, tuple) else x for x in vals[:30]]], model=[str(c) for c in mcol[:30]]))
+            return
+    if b is not None:
+        for i, (t, mt) in enumerate(zip(tags, mtags)):
+            if mt is not None and float(mt) == t:
+                continue
+            u = (md_q[i] - lo_q) / bq
+            idx = u.numerator // u.denominator
+            near_edge = min(u - idx, idx + 1 - u) < Fraction(1, 10 ** 6)
+            cands = set()
+            for j in (idx - 1, idx, idx + 1):
+                cands |= round4_candidates(lo_q + j * bq + bq / 2)
+            y = (lo_q + idx * bq + bq / 2) * 10000
+            tie = abs((y - (y.numerator // y.denominator)) - Fraction(1, 2)) < Fraction(1, 10 ** 6)
+            if (near_edge or tie) and t in cands:
+                chk.float_boundary += 1
+                chk.count("float-boundary", "openmod-edge" if near_edge else "openmod-tie")
+                continue
+            chk.corr_break("pepxml-openmod", dict(info, row=i, impl=t, model=None if mt is None else float(mt),
+                                                  mass_diff=md_f[i], smallest=float(lo_q)))
+            return
+    elif any(t is not None for t in mtags):
+        chk.corr_break("pepxml-openmod", dict(info, impl="no tag", model="tag"))
+        return
+    # ---- to_df=False: feature list and column roles of the LinearPsmDataset --------------------
+    if ds_info is not None:
+        if "error" in ds_info:
+            one_sided = len({r[8] for r in irows}) < 2
+            if one_sided and ("No decoy PSMs" in ds_info["error"] or "No target PSMs" in ds_info["error"]):
+                chk.reject("dataset:" + ds_info["error"].split(":")[1].strip())
+            else:
+                chk.spec_violation("dataset-raised", dict(info, clause=(
+                    "read_pepxml(to_df=False) raised where to_df=True returned PSMs of both classes: "
+                    + ds_info["error"])))
+            return
+        want_fc = [n for n in names if n not in FIXED and n not in excl]
+        bad = None
+        if ds_info["feature_columns"] != want_fc:
+            bad = ("dataset-feature-columns", f"feature columns {ds_info['feature_columns']!r}, expected {want_fc!r}")
+        elif {k: ds_info[k] for k in DATASET_ROLES} != DATASET_ROLES:
+            bad = ("dataset-roles", f"column roles { {k: ds_info[k] for k in DATASET_ROLES}!r}")
+        elif not (ds_info["data_equal"] and ds_info["targets_equal"]):
+            bad = ("dataset-data", "the dataset does not hold the PSM table returned with to_df=True")
+        if bad:
+            chk.spec_violation(bad[0], dict(info, clause=bad[1]))
+            return
+        if mfeatcols != ds_info["feature_columns"]:
+            chk.corr_break("pepxml-opts-featcols", dict(info, impl=ds_info["feature_columns"], model=mfeatcols))
+            return
+
+
+def hit_mass_diffs(case):
+    out = []
+    for f in case["files"]:
+        for r in f.get("runs", []):
+            for sp in r["spectra"]:
+                for res in sp["results"]:
+                    for h in res:
+                        out.append(Fraction(sp["exp"]) - Fraction(h["calc"]))
+    return out
+
+
+def column_pool(case):
+    """names of the columns the returned frame will have (besides the fixed ones)"""
+    names = []
+    hits = [h for f in case["files"] for h in iter_hits(f)]
+    for h in hits:
+        if h["mc"] is not None:
+            names.append("missed_cleavages")
+        if h["ntt"] is not None:
+            names.append("ntt")
+        if h["nm"] is not None:
+            names.append("num_matched_peptides")
+        names += [c[1] for c in h["children"] if c[0] == "s"]
+    names += ["mass_diff", "abs_mz_diff"]
+    for f in case["files"]:
+        for r in f.get("runs", []):
+            for sp in r["spectra"]:
+                if any(sp["results"]) and any(res for res in sp["results"]):
+                    names.append(f"charge_{sp['charge']}")
+    out = []
+    for n in names:
+        if n not in out:
+            out.append(n)
+    return out
+
+
+BIN_SIZES = ["0.01", "0.05", "0.5", "0.003", "0.25", "1.7", "0.0124", "2", "0.1", "0.002", "37"]
+
+
+def gen_opts(rng, case):
+    o = {}
+    pool = column_pool(case)
+    if rng.random() < 0.65:
+        k = rng.choice([0, 1, 1, 1, 2, 2, 3, 5])
+        cand = pool + ["nope", "scan", "peptide", "charge", "label"]
+        ex = rng.sample(cand, min(k, len(cand)))
+        o["exclude"] = ex
+        o["exclude_form"] = "str" if (len(ex) == 1 and rng.random() < 0.4) else rng.choice(["tuple", "list"])
+    if rng.random() < 0.55:
+        mds = hit_mass_diffs(case)
+        span = (max(mds) - min(mds)) if mds else Fraction(0)
+        b = rng.choice(BIN_SIZES)
+        while span / Fraction(b) > 2 * 10 ** 5:
+            b = str(Fraction(b) * 10)
+        if rng.random() < 0.03:
+            b = rng.choice(["0", "-0.5"])
+        o["bin"] = b
+    if case["prefix"] == "decoy_" and rng.random() < 0.6:
+        o["default_prefix"] = True
+    o["dataset"] = rng.random() < 0.25
+    return o
+
+
+def gen_opts_case(rng, size=3):
+    case = gen_case(rng, size)
+    if rng.random() < 0.5:
+        case["prefix"] = "decoy_"  # so that the default of `decoy_prefix` is exercised often
+    case["opts"] = gen_opts(rng, case)
+    return case
+
+
+def opts_doc():
+    h = simple_hit
+    hits = [
+        h(prot="decoy_P", calc="500.25", mc=1, nm=10, children=[["s", "xcorr", "2.5", None], ["s", "expect", "1.5", "e-5"]]),
+        h(prot="T1", calc="500.26", ntt=2, nm=100, children=[["s", "xcorr", "0.75", None], ["s", "expect", "1", "e-9"],
+                                                              ["m", [[2, "15.9949"]]]]),
+        h(prot="T2", calc="499.85", mc=0, children=[["s", "expect", "3", "e-2"], ["a", "decoy_Q"]]),
+        h(prot="decoy_R", calc="484.7551", mc=2, ntt=1, children=[["s", "xcorr", "30000", None], ["s", "ntt", "7", None]]),
+    ]
+    spectra = [dict(scan=k + 1, charge=2 + (k % 2), rt="1.5", exp="500.75", results=[[x]]) for k, x in enumerate(hits)]
+    return dict(runs=[dict(base="r", ext=".mzML", spectra=spectra)], render={})
+
+
+def sweep_opts(kmax):
+    """every exclusion set of <= kmax names over a fixed document x {no bin, two bin sizes}"""
+    pool = ["xcorr", "expect", "ntt", "missed_cleavages", "num_matched_peptides", "mass_diff", "abs_mz_diff",
+            "charge_2", "charge_3", "nope"]
+    cases = []
+    for k in range(0, kmax + 1):
+        for ex in itertools.combinations(pool, k):
+            for b in (None, "0.3", "0.0124"):
+                cases.append(dict(prefix="decoy_", files=[opts_doc()], as_list=True, opts=dict(
+                    exclude=list(ex), exclude_form="tuple" if k % 2 else "list", bin=b,
+                    default_prefix=(k % 2 == 0), dataset=(b is None))))
+    return cases
+
+
+def opts_edge_cases():
+    cases = []
+    base = dict(prefix="decoy_", files=[opts_doc()], as_list=True)
+    for o in (dict(), dict(default_prefix=True, dataset=True), dict(exclude=[], exclude_form="tuple", dataset=True),
+              dict(exclude=["xcorr"], exclude_form="str", dataset=True), dict(bin="0.5"), dict(bin="0"),
+              dict(bin="-0.5"), dict(bin="0.01", exclude=["mass_diff", "expect"], dataset=True), dict(bin="0.0123"),
+              dict(exclude=["scan", "peptide", "label"], exclude_form="list", dataset=True)):
+        cases.append(dict(base, opts=o))
+    # rejection is independent of the options
+    cases.append(dict(prefix="decoy_", files=[opts_doc(), dict(bad="tsv")], as_list=True,
+                      opts=dict(exclude=["xcorr"], bin="0.5")))
+    perc = opts_doc()
+    perc["runs"][0]["spectra"][0]["results"][0][0]["children"].append(["s", "Percolator PEP", "0.5", None])
+    cases.append(dict(prefix="decoy_", files=[perc], as_list=True,
+                      opts=dict(exclude=["Percolator PEP"], exclude_form="str", bin="0.5")))
+    # search scores named like another key of the PSM dict (outside the model; outcome tallied)
+    for nm in ("scan", "peptide", "label", "ret_time", "charge", "proteins", "calc_mass", "mass_diff", "charge_2",
+               "num_matched_peptides"):
+        d = opts_doc()
+        d["runs"][0]["spectra"][1]["results"][0][0]["children"].insert(1, ["s", nm, "7", None])
+        cases.append(dict(prefix="decoy_", files=[d], as_list=True, opts=dict()))
+    return cases
+
+
 def case_key(case):
     return hashlib.sha1(json.dumps(case, sort_keys=True).encode()).hexdigest()
 
 
 def nontrivial(case):
+    if any(v not in (None, False) for v in (case.get("opts") or {}).values()):
+        return True
     if len(case["files"]) != 1 or any("bad" in f for f in case["files"]):
         return True
     f = case["files"][0]
@@ -627,24 +1121,52 @@ def tally(chk, case, tag):
 
 
 def eval_cases(chk, cases, tag="gen"):
-    lines = []
+    lines, at = [], []
     for c in cases:
         w = wire_files(c)
+        at.append(len(lines))
         lines.append(req("pepxml", c["prefix"], w))
         lines.append(req("pepxml-spec", c["prefix"], w))
+        if "opts" in c:
+            o = c["opts"]
+            lines.append(req("pepxml-opts", opt(None if o.get("default_prefix") else c["prefix"]), w,
+                             list(o.get("exclude") or []), opt(None if o.get("bin") is None else Fraction(o["bin"]))))
     resp = common.driver_batch(lines)
     for k, c in enumerate(cases):
         nv, nc = len(chk.spec_violations), len(chk.corr_breaks)
-        compare(chk, c, resp[2 * k], resp[2 * k + 1], tag)
+        if "opts" in c:
+            compare_opts(chk, c, resp[at[k]], resp[at[k] + 1], resp[at[k] + 2], tag)
+        else:
+            compare(chk, c, resp[at[k]], resp[at[k] + 1], tag)
         sample = None
         if len(chk.samples) < 4 and n_hits(c) <= 3:
-            sample = dict(case=c, model=resp[2 * k][:400])
+            sample = dict(case=c, model=resp[at[k]][:400])
         chk.case(None, case_key(c) if nontrivial(c) else None, sample=sample)
         tally(chk, c, tag)
+        if "opts" in c:
+            tally_opts(chk, c)
         if len(chk.spec_violations) > nv:
             chk.count("verdict", "spec-violation")
         elif len(chk.corr_breaks) > nc:
             chk.count("verdict", "corr-break")
+
+
+def tally_opts(chk, case):
+    o = case["opts"]
+    ex = o.get("exclude")
+    chk.count("opt-exclude", "not-given" if ex is None else len(ex))
+    if ex is not None:
+        chk.count("opt-exclude-form", o.get("exclude_form", "list"))
+        pool = column_pool(case)
+        for n in ex:
+            kind = ("absent" if n not in pool and n not in FIXED else "fixed" if n in FIXED else
+                    "derived" if n in ("mass_diff", "abs_mz_diff") else "charge" if n.startswith("charge_") else
+                    "num_matched_peptides" if n == "num_matched_peptides" else
+                    "attribute" if n in ("missed_cleavages", "ntt") else "score")
+            chk.count("opt-excluded-kind", kind)
+    chk.count("opt-bin", "not-given" if o.get("bin") is None else o["bin"])
+    chk.count("opt-default-prefix", bool(o.get("default_prefix")))
+    chk.count("opt-dataset", bool(o.get("dataset")))
 
 
 # ----------------------------------------------------------------------------
@@ -990,6 +1512,7 @@ def exhaustive(chk, thorough):
         ("interleavings", pack(sweep_interleavings())),
         ("shapes", sweep_shapes(2, 2, 2, 1) if thorough else sweep_shapes(1, 2, 2, 1)),
         ("columns", sweep_columns(4 if thorough else 2) + sweep_columns(3 if thorough else 1)),
+        ("opts", sweep_opts(3 if thorough else 1)),
     ]
     summary = {}
     for name, cases in plan:
@@ -1039,6 +1562,16 @@ def deletions(case):
     def clone():
         return json.loads(json.dumps(case))
 
+    o = case.get("opts")
+    if o is not None:
+        for i in range(len(o.get("exclude") or [])):
+            c = clone(); del c["opts"]["exclude"][i]; c["opts"]["exclude_form"] = "list"; yield c
+        for key in ("bin", "exclude"):
+            if o.get(key) is not None:
+                c = clone(); c["opts"][key] = None; yield c
+        for key in ("dataset", "default_prefix"):
+            if o.get(key):
+                c = clone(); c["opts"][key] = False; yield c
     for fi, f in enumerate(case["files"]):
         c = clone(); del c["files"][fi]; yield c
         for ri, r in enumerate(f.get("runs", [])):
@@ -1100,7 +1633,7 @@ def minimise(chk):
 # ----------------------------------------------------------------------------
 def search(chk):
     rng = chk.rng
-    cases = [gen_case(rng, 6) for _ in range(1500)]
+    cases = [gen_case(rng, 6) if i % 4 else gen_opts_case(rng, 5) for i in range(1500)]
     for i in range(0, len(cases), 200):
         eval_cases(chk, cases[i:i + 200], tag="search")
         if chk.spec_violations:
@@ -1122,6 +1655,12 @@ def main(chk, args):
         cases = [gen_case(rng, 4 if i % 10 else 12) for i in range(n)]
         for i in range(0, len(cases), 200):
             eval_cases(chk, cases[i:i + 200])
+        # options (generated after the default-path cases, whose stream is thereby unchanged)
+        eval_cases(chk, opts_edge_cases(), tag="edge-opts")
+        m = 160 if chk.tier == "quick" else 2500
+        ocases = [gen_opts_case(rng, 3 if (i % 10 or chk.tier == "quick") else 8) for i in range(m)]
+        for i in range(0, len(ocases), 200):
+            eval_cases(chk, ocases[i:i + 200], tag="gen-opts")
         exhaustive(chk, chk.tier == "thorough")
         minimise(chk)
     finally:
@@ -1139,7 +1678,12 @@ def main(chk, args):
         "mass_diff / abs_mz_diff are float-origin columns: compared exactly after applying the model's transform "
         "decision to the same float expression, with tolerance 1e-9 in the scientific branch; decisions within "
         "1e-6 of a threshold are counted as float_boundary_cases",
-        "exclude_features and open_modification_bin_size keep their defaults",
+        "options: exclude_features (str / tuple / list; names of scores, attributes, derived, charge, fixed and absent "
+        "columns), open_modification_bin_size > 0 (decimal sizes; the model bins in exact arithmetic, a mass "
+        "difference within 1e-6 bins of a bin edge or a rounding tie is a float_boundary case accepted in either "
+        "adjacent bin; sizes <= 0 are outside the model), the default decoy_prefix, and to_df=False (feature list, "
+        "column roles, data identical to to_df=True) are exercised on separately generated cases; the bin value is "
+        "read back from the peptide text with float()",
     ]
     chk.finish(build, RULE, search=search, lc=lc,
                trusted_extra=["lxml iterparse, pandas DataFrame.from_records/concat/get_dummies/apply/astype, "
